@@ -18,6 +18,7 @@ CONSTANTS
   LiveRounds = FALSE
   CachePutFails = TRUE
   CrashInCreate = TRUE
+  IssuerEntries = {}
   Stops = FALSE
 INVARIANTS PubAppendOnly
 
